@@ -542,11 +542,22 @@ func (s *scope) createInstance(descriptor *Descriptor) (any, error) {
 				regKey = reg.Key
 			}
 
-			if reg.Type == descriptor.Type && regKey == descriptor.Key {
+			// The descriptor registered for this field together with the one
+			// being resolved (it carries its own key and group position)
+			var regDescriptor *Descriptor
+			for _, sibling := range descriptor.coRegistered {
+				if sibling.resultField == reg.Name {
+					regDescriptor = sibling
+				}
+			}
+
+			if regDescriptor == descriptor || (regDescriptor == nil && reg.Type == descriptor.Type && regKey == descriptor.Key) {
 				primaryService = value
 			}
 
-			regDescriptor := s.rootProvider.findDescriptor(reg.Type, regKey)
+			if regDescriptor == nil {
+				regDescriptor = s.rootProvider.findDescriptor(reg.Type, regKey)
+			}
 			if regDescriptor == nil {
 				return nil, &ResolutionError{
 					ServiceType: reg.Type,
@@ -557,8 +568,15 @@ func (s *scope) createInstance(descriptor *Descriptor) (any, error) {
 
 			key := instanceKey{
 				Type:  reg.Type,
-				Key:   regKey,
-				Group: reg.Group,
+				Key:   regDescriptor.Key,
+				Group: regDescriptor.Group,
+			}
+
+			// A field whose registration was removed (or replaced by another
+			// registration of that type) is nobody's service any more: keep it
+			// under a private key, owned and disposed like its siblings.
+			if !s.rootProvider.isRegistered(regDescriptor) {
+				key.Key = regDescriptor
 			}
 
 			s.setInstance(regDescriptor, key, value)
@@ -583,8 +601,17 @@ func (s *scope) createInstance(descriptor *Descriptor) (any, error) {
 
 			value := results[ret.Index].Interface()
 
-			// Find the descriptor for this return type
-			serviceDescriptor := s.rootProvider.findDescriptor(ret.Type, nil)
+			// Find the descriptor registered for this result together with
+			// the one being resolved (it carries its own key and group)
+			var serviceDescriptor *Descriptor
+			for _, sibling := range descriptor.coRegistered {
+				if sibling.MultiReturnIndex == ret.Index {
+					serviceDescriptor = sibling
+				}
+			}
+			if serviceDescriptor == nil {
+				serviceDescriptor = s.rootProvider.findDescriptor(ret.Type, nil)
+			}
 			if serviceDescriptor == nil {
 				return nil, &ResolutionError{
 					ServiceType: ret.Type,
@@ -597,6 +624,13 @@ func (s *scope) createInstance(descriptor *Descriptor) (any, error) {
 				Type:  ret.Type,
 				Key:   serviceDescriptor.Key,
 				Group: serviceDescriptor.Group,
+			}
+
+			// A result whose registration was removed (or replaced by another
+			// registration of that type) is nobody's service any more: keep it
+			// under a private key, owned and disposed like its siblings.
+			if !s.rootProvider.isRegistered(serviceDescriptor) {
+				key.Key = serviceDescriptor
 			}
 
 			s.setInstance(serviceDescriptor, key, value)
